@@ -190,15 +190,19 @@ func (fakeDialect) Append() string      { return "APPEND" }
 var registerFake sync.Once
 var dbCounter atomic.Int64
 
+// lastRepoDir is the directory of the file-system repository created last (one REPO line runs at a time per process)
+var lastRepoDir string
+
 func newRepo(impl string) (asset.Repository, func(), error) {
 	switch impl {
 	case "mem", "memtz":
 		return asset.NewInMemoryRepository(), func() {}, nil
-	case "fs":
+	case "fs", "fsw":
 		dir, err := os.MkdirTemp("", "ivrepo")
 		if err != nil {
 			return nil, nil, err
 		}
+		lastRepoDir = dir
 		return asset.NewFileSystemRepository(dir), func() { os.RemoveAll(dir) }, nil
 	case "sql":
 		registerFake.Do(func() { sql.Register("ivfake", fakeDriver{}) })
@@ -231,11 +235,56 @@ func runRepo(impl, opsS string) (result string) {
 		return "ERR " + err.Error()
 	}
 	defer cleanup()
+	repoDir := lastRepoDir
+	if impl == "fsw" {
+		// the process runs in a time zone west of UTC: whole-day UTC dates must come back unchanged
+		old := time.Local
+		time.Local = time.FixedZone("west", -5*3600)
+		defer func() { time.Local = old }()
+	}
 	serial := 0
 	var out []string
 	for _, op := range strings.Split(opsS, ";") {
 		f := strings.Split(op, ":")
 		switch f[0] {
+		case "z":
+			// an asset that exists without content: a zero-byte file put there from outside (file system), an empty append (others)
+			if impl == "fs" || impl == "fsw" {
+				path := filepath.Join(repoDir, f[1]+".csv")
+				if _, err := os.Stat(path); err == nil {
+					out = append(out, "ok")
+					break
+				}
+				if err := os.WriteFile(path, nil, 0o644); err != nil {
+					out = append(out, "err")
+				} else {
+					out = append(out, "ok")
+				}
+			} else if err := repo.Append(f[1], helper.SliceToChan([]*asset.Snapshot{})); err != nil {
+				out = append(out, "err")
+			} else {
+				out = append(out, "ok")
+			}
+		case "c":
+			// copy inside one repository: Append(dst, Get(src)) — the source stream is still open while the target is written
+			c, err := repo.Get(f[1])
+			if err != nil {
+				out = append(out, "err")
+				break
+			}
+			done := make(chan error, 1)
+			go func() { done <- repo.Append(f[2], c) }()
+			select {
+			case e := <-done:
+				if e != nil {
+					out = append(out, "err")
+				} else {
+					out = append(out, "ok")
+				}
+			case <-time.After(5 * time.Second):
+				out = append(out, "hang")
+				return "ok " + strings.Join(out, ";")
+			}
 		case "a":
 			var snaps []*asset.Snapshot
 			if len(f) > 2 && f[2] != "" {
@@ -941,7 +990,11 @@ func (f *faultyRepo) Append(name string, c <-chan *asset.Snapshot) error {
 	return f.Repository.Append(name, c)
 }
 
+// zeroByteAssets: names marked "name:z" in the spec parsed last
+var zeroByteAssets = map[string]bool{}
+
 func parseSpec(spec string, serial *int) map[string][]*asset.Snapshot {
+	zeroByteAssets = map[string]bool{}
 	out := map[string][]*asset.Snapshot{}
 	if spec == "-" || spec == "" {
 		return out
@@ -949,6 +1002,11 @@ func parseSpec(spec string, serial *int) map[string][]*asset.Snapshot {
 	for _, part := range strings.Split(spec, ";") {
 		f := strings.Split(part, ":")
 		var snaps []*asset.Snapshot
+		if len(f) > 1 && f[1] == "z" { // the asset exists without content: a zero-byte file in a file-system target
+			zeroByteAssets[f[0]] = true
+			out[f[0]] = nil
+			continue
+		}
 		if len(f) > 1 && f[1] != "" {
 			for _, d := range strings.Split(f[1], ",") {
 				day, _ := strconv.Atoi(d)
@@ -1014,6 +1072,10 @@ func runSync(args []string) string {
 		}
 		sort.Strings(tnames)
 		for _, n := range tnames {
+			if zeroByteAssets[n] && args[5] == "fs" {
+				os.WriteFile(filepath.Join(lastRepoDir, n+".csv"), nil, 0o644)
+				continue
+			}
 			tgt.Append(n, helper.SliceToChan(tgtSpec[n]))
 		}
 		runs, _ := strconv.Atoi(args[6])
